@@ -18,7 +18,7 @@
    Every place where the code at the pinned commit deviates from the design the property describes is a NAMED
    finding; the deviating branch is enabled only when its name is in the constant Findings and records itself in
    `used`.  With Findings = {} the module is the intended design.                                             *)
-EXTENDS Naturals, Sequences, FiniteSets, TLC
+EXTENDS Naturals, Sequences, FiniteSets, TLC, Json
 
 CONSTANTS Stores,      \* store names
           Txns,        \* transaction identifiers
@@ -48,7 +48,7 @@ VARIABLES fold,     \* [1..2 -> [list, info, reg]]
 vars == <<fold, mem, l2, rs, newer, txn, logs, cinfo, rein, content, used>>
 
 Other(i)  == 3 - i
-NoInfo    == [c |-> 0, ts |-> 0, r |-> NoR]
+NoInfo    == [c |-> 0, r |-> NoR]
 Lids(R)   == {h.lid : h \in R}
 EmptyFold == [list |-> {}, info |-> [s \in Stores |-> NoInfo], reg |-> [s \in Stores |-> {}]]
 NoRS      == [present |-> FALSE, failed |-> FALSE, act |-> 1, logging |-> FALSE]
@@ -65,8 +65,8 @@ Init == /\ fold = [i \in 1..2 |-> EmptyFold]
         /\ content = [s \in Stores |-> {}] /\ used = {}
 
 -----------------------------------------------------------------------------
-(* Registry arithmetic.  A handle record is [lid, img, v]: logical id, full image, version.  A store info is
-   [c, ts, r]: count, timestamp, everything else.  A change c = [s, info, add, set, rem]: new store info and the
+(* Registry arithmetic.  A handle record is [lid, img]: logical id, full image.  A store info is
+   [c, r]: count, everything else (timestamp included).  A change c = [s, info, add, set, rem]: new store info and the
    handle records that appeared, changed, vanished in the active registry of store s.                          *)
 ApplyActive(R, c) == {h \in R : h.lid \notin Lids(c.set) \cup Lids(c.rem)} \cup c.add \cup c.set
 
@@ -75,12 +75,6 @@ Conflict(R, c) == \/ Lids(c.add) \cap Lids(R) # {}
                   \/ ~ (Lids(c.rem) \subseteq Lids(R))
 \* result when there is no conflict; also the idempotent ("merge by logical id") application of the design
 ApplyPassive(R, c) == {h \in R : h.lid \notin Lids(c.add) \cup Lids(c.set) \cup Lids(c.rem)} \cup c.add \cup c.set
-
-\* design of fastForward ("use the handle version / store timestamp to decide"): a logged record replaces the
-\* passive one only when it is newer; a logged removal removes whatever is there
-Newer(R, h) == \A g \in R : g.lid = h.lid => g.v < h.v
-MergePassive(R, c) == LET inc == {h \in c.add \cup c.set : Newer(R, h)}
-                      IN {g \in R : g.lid \notin Lids(inc) \cup Lids(c.rem)} \cup inc
 
 SetStore(f, s, i, R) == [f EXCEPT !.info[s] = i, !.reg[s] = R]
 
@@ -106,6 +100,21 @@ Snaps(t) == {Cur} \cup (IF Has("staleSnapshot") THEN {Snap(t)} ELSE {})
 
 WriteRS(i, d) == /\ rs' = [rs EXCEPT ![i] = [present |-> TRUE, failed |-> d.failed, act |-> d.act, logging |-> d.logging]]
                  /\ newer' = i
+
+\* What a fresh process decides from the two replstat.txt files (readStatusFromHomeFolder): when the first
+\* folder has no file the toggler read from the second one is inverted, otherwise the newer file is taken as is.
+FreshOf(r, nw) ==
+  IF ~r[1].present
+  THEN IF r[2].present THEN [act |-> Other(r[2].act), failed |-> r[2].failed] ELSE [act |-> 1, failed |-> FALSE]
+  ELSE IF r[2].present /\ nw = 2 THEN [act |-> r[2].act, failed |-> r[2].failed]
+       ELSE [act |-> r[1].act, failed |-> r[1].failed]
+FreshCode == FreshOf(rs, newer)
+\* after a write of a status file: does a fresh process still choose the folder the running process uses?
+\* (to be conjoined after rs', newer', mem' are determined; u = the other findings used by the step)
+StatusWritten(u) ==
+  LET agrees == FreshOf(rs', newer').act = mem'.act IN
+  /\ agrees \/ Has("failoverNotDurable")
+  /\ used' = IF agrees THEN u ELSE u \cup {"failoverNotDurable"}
 
 -----------------------------------------------------------------------------
 (* Transactions *)
@@ -134,7 +143,7 @@ Create(t, sn, s, info, ok, pf) ==
              /\ cinfo' = [cinfo EXCEPT ![a][s] = info]
              /\ mem' = Det(TRUE, a, Pulled.logging) /\ l2' = mem'
              /\ WriteRS(a, mem')
-             /\ used' = Use("staleSnapshot", sn # Cur)
+             /\ StatusWritten(Use("staleSnapshot", sn # Cur))
              /\ UNCHANGED txn
           \/ \* code: Add returns the error, NewBtree removes the store again and rolls the transaction back
              /\ Has("createFailsOnPassive") /\ pf # "none" /\ ~ok
@@ -160,16 +169,16 @@ Commit(t, sn, chs, ws, ok, pf, hit, pafter) ==
           THEN \* handleFailedToReplicate: pull, set the flag, persist it in the active folder, push
                /\ fold' = [fold EXCEPT ![a] = ApplyAll(@, chs, FALSE), ![p] = pafter]
                /\ IF Pulled.failed
-                  THEN mem' = Pulled /\ UNCHANGED <<l2, rs, newer>>
+                  THEN mem' = Pulled /\ UNCHANGED <<l2, rs, newer>> /\ used' = Use("staleSnapshot", sn # Cur)
                   ELSE /\ mem' = Det(TRUE, Pulled.act, Pulled.logging) /\ l2' = mem'
                        /\ WriteRS(a, Det(TRUE, sn.act, sn.logging))
+                       /\ StatusWritten(Use("staleSnapshot", sn # Cur))
           ELSE /\ fold' = [fold EXCEPT ![a] = ApplyAll(@, chs, FALSE),
                                        ![p] = IF attempt THEN ApplyAll(@, chs, TRUE) ELSE @]
-               /\ UNCHANGED <<mem, l2, rs, newer>>
+               /\ UNCHANGED <<mem, l2, rs, newer>> /\ used' = Use("staleSnapshot", sn # Cur)
        /\ logs' = IF sn.logging THEN Append(logs, chs) ELSE logs
        /\ cinfo' = [cinfo EXCEPT ![a] = [s \in Stores |-> IF \E c \in chs : c.s = s
                                                             THEN (CHOOSE c \in chs : c.s = s).info ELSE @[s]]]
-       /\ used' = Use("staleSnapshot", sn # Cur)
   /\ content' = ApplyWork(ws)
   /\ txn' = [txn EXCEPT ![t].st = "done"]
   /\ UNCHANGED rein
@@ -196,16 +205,17 @@ Wipe ==
      /\ newer' = IF newer = p THEN (IF rs[mem.act].present THEN mem.act ELSE 0) ELSE newer
   /\ UNCHANGED <<mem, l2, txn, logs, cinfo, rein, content, used>>
 
-\* fs.TriggerFailover.  Nothing happens when replication is already off (the passive side is stale).
+\* fs.TriggerFailover.  Nothing happens when replication is already off (the passive side is stale).  The status
+\* file written into the new active folder must make a fresh process choose that folder; the code always writes
+\* the toggler as it was BEFORE the switch, which readStatusFromHomeFolder undoes only when the old active folder
+\* has no status file.
 Failover(ok) ==
   /\ ok
   /\ IF Pulled.failed
      THEN mem' = Pulled /\ UNCHANGED <<l2, rs, newer, used>>
      ELSE LET o == Pulled.act  n == Other(Pulled.act) IN
           /\ mem' = Det(TRUE, n, Pulled.logging) /\ l2' = mem'
-          /\ \/ WriteRS(n, Det(TRUE, n, Pulled.logging)) /\ UNCHANGED used
-             \/ Has("failoverNotDurable") /\ WriteRS(n, Det(TRUE, o, Pulled.logging))
-                /\ used' = used \cup {"failoverNotDurable"}
+          /\ \E w \in {o, n} : WriteRS(n, Det(TRUE, w, Pulled.logging)) /\ StatusWritten(used)
   /\ UNCHANGED <<fold, txn, logs, cinfo, rein, content>>
 
 -----------------------------------------------------------------------------
@@ -226,9 +236,9 @@ ReinStartLog ==
   /\ rein.pc = "begun"
   /\ mem' = Det(mem.failed, mem.act, TRUE)
   /\ WriteRS(mem.act, mem')
-  /\ \/ l2' = mem' /\ UNCHANGED used
+  /\ \/ l2' = mem' /\ StatusWritten(used)
      \/ Has("logFlagLost") /\ l2.failed = mem.failed /\ l2.act = mem.act /\ ~l2.logging
-        /\ UNCHANGED l2 /\ used' = used \cup {"logFlagLost"}
+        /\ UNCHANGED l2 /\ StatusWritten(used \cup {"logFlagLost"})
   /\ rein' = [rein EXCEPT !.pc = "logging"]
   /\ UNCHANGED <<fold, txn, logs, cinfo, content>>
 
@@ -262,14 +272,18 @@ Patched(cs) == {[c EXCEPT !.info.c = IF cinfo[mem.act][c.s] # NoInfo THEN cinfo[
 \* code: Replicate of store infos and registry changes exactly as logged
 RECURSIVE FFBlind(_, _)
 FFBlind(f, ls) == IF ls = <<>> THEN f ELSE FFBlind(ApplyAll(f, Patched(Head(ls)), TRUE), Tail(ls))
-\* design: merge by timestamp / version
-MergeAll(f, chs) ==
-  [f EXCEPT !.info = [s \in Stores |-> IF \E c \in chs : c.s = s /\ c.info.ts >= f.info[s].ts
-                                       THEN (CHOOSE c \in chs : c.s = s).info ELSE f.info[s]],
+\* design: a log names the records that changed; their current state is taken from the active side, which makes
+\* the step idempotent and independent of what replication has meanwhile written
+Resync(f, chs) ==
+  LET act == fold[mem.act] IN
+  [f EXCEPT !.info = [s \in Stores |-> IF (\E c \in chs : c.s = s) /\ s \in act.list THEN act.info[s] ELSE f.info[s]],
             !.reg  = [s \in Stores |-> IF \E c \in chs : c.s = s
-                                      THEN MergePassive(f.reg[s], CHOOSE c \in chs : c.s = s) ELSE f.reg[s]]]
+                                      THEN LET c == CHOOSE c \in chs : c.s = s
+                                               L == Lids(c.add) \cup Lids(c.set) \cup Lids(c.rem)
+                                           IN {g \in f.reg[s] : g.lid \notin L} \cup {g \in act.reg[s] : g.lid \in L}
+                                      ELSE f.reg[s]]]
 RECURSIVE FFMerge(_, _)
-FFMerge(f, ls) == IF ls = <<>> THEN f ELSE FFMerge(MergeAll(f, Patched(Head(ls))), Tail(ls))
+FFMerge(f, ls) == IF ls = <<>> THEN f ELSE FFMerge(Resync(f, Head(ls)), Tail(ls))
 
 RECURSIVE FFConflict(_, _)
 FFConflict(f, ls) ==
@@ -302,23 +316,14 @@ ReinTurnOn ==
   /\ rein.pc = "ffdone"
   /\ mem' = Det(FALSE, mem.act, FALSE) /\ l2' = mem'
   /\ WriteRS(mem.act, mem')
+  /\ StatusWritten(used)
   /\ rein' = [rein EXCEPT !.pc = "on"]
-  /\ UNCHANGED <<fold, txn, logs, cinfo, content, used>>
+  /\ UNCHANGED <<fold, txn, logs, cinfo, content>>
 
 ReinDone ==
   /\ rein.pc = "ffdone2"
   /\ rein' = [pc |-> "idle", todo |-> <<>>]
   /\ UNCHANGED <<fold, mem, l2, rs, newer, txn, logs, cinfo, content, used>>
-
------------------------------------------------------------------------------
-(* What a fresh process decides from the two replstat.txt files (readStatusFromHomeFolder), code and design *)
-FreshCode ==
-  IF ~rs[1].present
-  THEN IF rs[2].present THEN [act |-> Other(rs[2].act), failed |-> rs[2].failed] ELSE [act |-> 1, failed |-> FALSE]
-  ELSE IF rs[2].present /\ newer = 2 THEN [act |-> rs[2].act, failed |-> rs[2].failed]
-       ELSE [act |-> rs[1].act, failed |-> rs[1].failed]
-\* design: the status file written last says which folder is active
-FreshDesign == IF newer = 0 THEN [act |-> 1, failed |-> FALSE] ELSE [act |-> rs[newer].act, failed |-> rs[newer].failed]
 
 -----------------------------------------------------------------------------
 (* Properties *)
@@ -334,7 +339,7 @@ Faithful == (Quiescent /\ ~mem.failed /\ used = {}) => Equivalent
 \* the failure flag is durable: it is in the active folder's status file
 FlagPersisted == (mem.failed /\ used = {}) => (rs[A].present /\ rs[A].failed)
 \* a fresh process agrees with the running one about the active folder
-FreshAgrees == (used = {}) => FreshDesign.act = mem.act
+FreshAgrees == (used = {}) => FreshCode.act = mem.act
 \* no commit log is left behind once replication is on again
 NoLogLeft == (Quiescent /\ ~mem.failed /\ used = {}) => logs = <<>>
 
@@ -360,17 +365,18 @@ AllR == {fold[i].info[s].r : i \in 1..2, s \in Stores} \cup {cinfo[i][s].r : i \
 FreshLid == Max(AllLids) + 1
 FreshR   == Max(AllR) + 1
 
-BudgetSmall == [begin |-> 2, create |-> 1, commit |-> 2, fail |-> 1, drop |-> 1, wipe |-> 1, failover |-> 1, rein |-> 1]
-BudgetLarge == [begin |-> 3, create |-> 1, commit |-> 3, fail |-> 1, drop |-> 1, wipe |-> 1, failover |-> 1, rein |-> 1]
+BudgetQuick == [begin |-> 2, create |-> 0, commit |-> 2, fail |-> 1, drop |-> 0, wipe |-> 1, failover |-> 1, reins |-> 1]
+BudgetSmall == [begin |-> 2, create |-> 1, commit |-> 2, fail |-> 1, drop |-> 1, wipe |-> 1, failover |-> 1, reins |-> 1]
+BudgetLarge == [begin |-> 3, create |-> 1, commit |-> 3, fail |-> 1, drop |-> 1, wipe |-> 1, failover |-> 1, reins |-> 1]
 
 \* exploration starts with one replicated store holding one handle
 First == CHOOSE s \in Stores : TRUE
-Seeded == [EmptyFold EXCEPT !.list = {First}, !.info[First] = [c |-> 1, ts |-> 1, r |-> 1], !.reg[First] = {[lid |-> 1, img |-> 1, v |-> 1]}]
+Seeded == [EmptyFold EXCEPT !.list = {First}, !.info[First] = [c |-> 1, r |-> 1], !.reg[First] = {[lid |-> 1, img |-> 1]}]
 MCInit == /\ fold = [i \in 1..2 |-> Seeded]
           /\ mem = Det(FALSE, 1, FALSE) /\ l2 = Det(FALSE, 1, FALSE)
           /\ rs = [i \in 1..2 |-> NoRS] /\ newer = 0
           /\ txn = [t \in Txns |-> [st |-> "idle", failed |-> FALSE, act |-> 1, logging |-> FALSE]]
-          /\ logs = <<>> /\ cinfo = [i \in 1..2 |-> [s \in Stores |-> IF i = 1 /\ s = First THEN [c |-> 1, ts |-> 1, r |-> 1] ELSE NoInfo]]
+          /\ logs = <<>> /\ cinfo = [i \in 1..2 |-> [s \in Stores |-> IF i = 1 /\ s = First THEN [c |-> 1, r |-> 1] ELSE NoInfo]]
           /\ rein = [pc |-> "idle", todo |-> <<>>]
           /\ content = [s \in Stores |-> {}] /\ used = {}
           /\ mc = [left |-> Budget, hist |-> <<>>]
@@ -382,9 +388,9 @@ Note(rec) == mc' = [mc EXCEPT !.hist = Append(@, rec)]
 \* single-store changes a transaction working on folder a can commit
 MCChanges(a) ==
   UNION {LET R == fold[a].reg[s]
-             inf(n) == [c |-> n, ts |-> FreshR, r |-> FreshR]
-         IN {{[s |-> s, info |-> inf(Cardinality(R) + 1), add |-> {[lid |-> FreshLid, img |-> 1, v |-> 1]}, set |-> {}, rem |-> {}]}}
-            \cup {{[s |-> s, info |-> inf(Cardinality(R)), add |-> {}, set |-> {[lid |-> h.lid, img |-> h.img + 1, v |-> h.v + 1]}, rem |-> {}]} : h \in R}
+             inf(n) == [c |-> n, r |-> FreshR]
+         IN {{[s |-> s, info |-> inf(Cardinality(R) + 1), add |-> {[lid |-> FreshLid, img |-> 1]}, set |-> {}, rem |-> {}]}}
+            \cup {{[s |-> s, info |-> inf(Cardinality(R)), add |-> {}, set |-> {[lid |-> h.lid, img |-> h.img + 1]}, rem |-> {}]} : h \in R}
             \cup {{[s |-> s, info |-> inf(Cardinality(R) - 1), add |-> {}, set |-> {}, rem |-> {h}]} : h \in R}
          : s \in fold[a].list}
 Kind(chs) == LET c == CHOOSE c \in chs : TRUE IN
@@ -396,7 +402,7 @@ Perms(S) == {q \in [1..Cardinality(S) -> S] : \A i, j \in 1..Cardinality(S) : i 
 MCNext ==
   \/ \E t \in Txns : Begin(t) /\ Spend("begin", [a |-> "begin", t |-> t])
   \/ \E t \in Txns, s \in Stores, pf \in {"none", "store-file"}, ok \in BOOLEAN : \E sn \in Snaps(t) :
-        /\ Create(t, sn, s, [c |-> 0, ts |-> FreshR, r |-> FreshR], ok, pf)
+        /\ Create(t, sn, s, [c |-> 0, r |-> FreshR], ok, pf)
         /\ IF pf = "none" THEN Spend("create", [a |-> "create", t |-> t, s |-> s, fault |-> "none"])
                           ELSE rein.pc = "idle" /\ Spend("fail", [a |-> "create", t |-> t, s |-> s, fault |-> pf])
   \/ \E t \in Txns : \E sn \in Snaps(t) : \E chs \in MCChanges(sn.act) :
@@ -409,7 +415,7 @@ MCNext ==
   \/ \E s \in Stores : s \in fold[Pulled.act].list /\ Drop(s, TRUE, "none") /\ Spend("drop", [a |-> "drop", s |-> s])
   \/ Wipe /\ rein.pc = "idle" /\ Spend("wipe", [a |-> "wipe"])
   \/ Failover(TRUE) /\ Spend("failover", [a |-> "failover"])
-  \/ ReinBegin /\ Spend("rein", [a |-> "reinbegin"])
+  \/ ReinBegin /\ Spend("reins", [a |-> "reinbegin"])
   \/ ReinStartLog /\ Note([a |-> "startlog"])
   \/ \E q \in Perms(fold[mem.act].list) : ReinCopyList(q) /\ Note([a |-> "copylist"])
   \/ \E s \in Stores : ReinCopyStore(s) /\ Note([a |-> "copystore", s |-> s])
@@ -423,5 +429,5 @@ MCSpec == MCInit /\ [][MCNext]_mvars
 Bounded == FreshLid <= MaxLid + 1 /\ FreshR <= MaxR + 1
 
 \* behaviours for the driver (simulation mode): printed when the reinstate budget is used up and the system is quiet
-EmitBeh == (Quiescent /\ mc.left["rein"] = 0 /\ Len(mc.hist) >= 8) => PrintT(<<"BEH", mc.hist>>)
+EmitBeh == (Quiescent /\ mc.left["reins"] = 0 /\ Len(mc.hist) >= 8) => PrintT(<<"BEH", ToJson(mc.hist)>>)
 =============================================================================
